@@ -6,6 +6,7 @@ import (
 	"encoding/json"
 	"fmt"
 	"math/rand"
+	"net"
 	"net/netip"
 	"os"
 	"reflect"
@@ -18,6 +19,7 @@ import (
 	"unsafe"
 
 	"github.com/irai/packet"
+	"github.com/irai/packet/fastlog"
 	"verifharness/vh"
 )
 
@@ -59,8 +61,9 @@ type worker struct {
 	curK   int
 	frameT reflect.Type
 	extra  map[string]*packet.Session // sessions over the special NIC configurations (nil: NewSession refused it)
-	curCfg string
-	nt     int // what the current vector exercised: 1 real code executed, 2 value compared (C02), 4 alias checked (C16)
+	curCfg string                     // description of the environment of the current vector ("" = default)
+	state  string                     // session state class to establish before every concrete case
+	nt     int                        // what the current vector exercised: 1 real code executed, 2 value compared (C02), 4 alias checked (C16)
 }
 
 func (w *worker) emit(r rec) {
@@ -109,7 +112,7 @@ func (w *worker) mm(v *vector, prop, what, view, g, exp, got string, input []byt
 		return
 	}
 	if w.curCfg != "" {
-		got += " [session configuration " + w.curCfg + "]"
+		got += " [" + w.curCfg + "]"
 	}
 	r := rec{T: "mm", ID: v.ID, K: w.curK, Prop: prop, What: what, View: view, G: g, Exp: exp, Got: got}
 	if w.hexed[ck] < 3 {
@@ -553,7 +556,7 @@ func (w *worker) checkOutcome(v *vector, o *outcome, a parseObs, data []byte, ho
 			w.drift(v, "view-end", name, want, got)
 		}
 	}
-	if a.host != o.Tracked && !seen["tracked"] {
+	if a.host != o.Tracked && !seen["tracked"] && (w.state == "" || w.state == "none") {
 		seen["tracked"] = true
 		w.drift(v, "tracked", "Parse", strconv.FormatBool(o.Tracked), strconv.FormatBool(a.host))
 	}
@@ -570,6 +573,9 @@ func (w *worker) runParse(v *vector) {
 		rng := caseRand(w.seed, k, s)
 		data := buildFrame(s, rng, w.u, false)
 		seen := map[string]bool{}
+		if w.state != "" && w.state != "none" {
+			w.prime(data)
+		}
 		if s.App == "echo-waiter" {
 			w.echoWaiter(v, s, o, data, seen)
 		}
@@ -650,6 +656,15 @@ func (w *worker) runParse(v *vector) {
 		// ---- C02: outcome in every buffer; getters of the views in the first ----
 		for i := range obs {
 			if obs[i].panicText != "" {
+				// a panic is neither the error nor the decoded frame the reference demands
+				if !seen["panic"] {
+					seen["panic"] = true
+					exp := "error"
+					if !o.Err {
+						exp = "PayloadID " + strconv.Itoa(o.ID)
+					}
+					w.mm(v, "C02", "panic", "Parse", "", exp, "PANIC: "+obs[i].panicText+how[i], data)
+				}
 				continue
 			}
 			accepted := w.checkOutcome(v, o, obs[i], data, how[i], seen)
@@ -1017,8 +1032,9 @@ func nicFor(u *vh.Universe, cfg string) *packet.NICInfo {
 
 // sessionFor returns the session of a configuration class, or nil when NewSession does not accept
 // the configuration on this tree (error or panic): such a configuration cannot reach Parse.
-func (w *worker) sessionFor(cfg string) *packet.Session {
-	if s, ok := w.extra[cfg]; ok {
+func (w *worker) sessionFor(cfg, state string) *packet.Session {
+	key := cfg + "/" + state
+	if s, ok := w.extra[key]; ok {
 		return s
 	}
 	var s *packet.Session
@@ -1040,9 +1056,42 @@ func (w *worker) sessionFor(cfg string) *packet.Session {
 		w.cnt["cfg_excluded_"+cfg]++
 		w.emit(rec{T: "drift", What: "config-excluded", View: cfg, Exp: "NewSession accepts the configuration", Got: reason})
 	}
-	w.extra[cfg] = s
+	w.extra[key] = s
 	return s
 }
+
+// prime establishes the session state class of the current vector for the source of this frame
+// through the exported API other subsystems use (spec: SessionStates).
+func (w *worker) prime(data []byte) {
+	if len(data) < 12 || data[6]&1 != 0 {
+		return
+	}
+	defer func() {
+		if e := recover(); e != nil {
+			w.cnt["prime_panics"]++
+		}
+	}()
+	mac := append(net.HardwareAddr{}, data[6:12]...)
+	lease := w.u.IP("a" + strconv.Itoa(20+int(mac[5])%40))
+	name := packet.NameEntry{Type: "dhcp", Name: "verif"}
+	switch w.state {
+	case "dhcp-ack":
+		w.s.DHCPv4Update(mac, lease, name)
+	case "dhcp-offer":
+		w.s.SetDHCPv4IPOffer(mac, lease, name)
+	case "captured":
+		w.s.Capture(mac)
+	case "captured-dhcp-ack":
+		w.s.Capture(mac)
+		w.s.DHCPv4Update(mac, lease, name)
+	case "host-offline":
+		w.doParse(append([]byte{}, data...))
+		w.s.VerifPurge(time.Now().Add(3 * time.Minute)) // older than OfflineDeadline (2 m), younger than PurgeDeadline (4 m)
+	}
+	w.cnt["primed_"+w.state]++
+}
+
+var logLevels = map[string]fastlog.LogLevel{"error": fastlog.LevelError, "info": fastlog.LevelInfo, "debug": fastlog.LevelDebug}
 
 // ---- worker main --------------------------------------------------------------------------------
 
@@ -1071,17 +1120,22 @@ func runWorker(vecs []*vector, tab *table, from, to, k int, seed int64, cfg int,
 		w.emit(rec{T: "@", ID: v.ID})
 		switch v.Fam {
 		case "parse":
-			if v.Cfg != "" && v.Cfg != "default" {
-				cs := w.sessionFor(v.Cfg)
+			if (v.Cfg != "" && v.Cfg != "default") || (v.State != "" && v.State != "none") || (v.Log != "" && v.Log != "error") {
+				// an environment case: special NIC configuration, primed session state, logger level
+				cs := w.sessionFor(v.Cfg, v.State)
 				if cs == nil {
 					w.cnt["vectors_cfg_skipped"]++
 					break
 				}
 				w.cnt["vectors_cfgparse"]++
+				w.cnt["vectors_env_"+v.Cfg+"_"+v.State+"_"+v.Log]++
 				base := w.s
-				w.s, w.curCfg = cs, v.Cfg
+				w.s, w.state = cs, v.State
+				w.curCfg = "session configuration " + v.Cfg + ", session state " + v.State + ", logger level " + v.Log
+				packet.Logger.SetLevel(logLevels[v.Log])
 				w.runParse(v)
-				w.s, w.curCfg = base, ""
+				packet.Logger.SetLevel(fastlog.LevelError)
+				w.s, w.curCfg, w.state = base, "", ""
 				break
 			}
 			w.cnt["vectors_parse"]++
